@@ -143,6 +143,9 @@ func (s *Swap) swapPools(ctx context.Context) []EditableChecker {
 	default:
 	}
 
+	s.muPairs.RLock()
+	defer s.muPairs.RUnlock()
+
 	pools := make([]EditableChecker, 0, len(s.pairs))
 
 	for _, pair := range s.pairs {
